@@ -193,6 +193,7 @@ def main(argv):
         'known_findings_seen': {k: e['n'] for k, e, _ in known_hits},
         'new_violation_classes': {k: e['n'] for k, e in new_viol},
         'inconclusive_reasons': inconclusive,
+        'notes': notes[:12],
         'chameleon_src': env.SRC,
     }
     if getattr(mod, 'EXHAUSTIVE', {}).get(tier):
